@@ -485,6 +485,10 @@ def run(tier, seed, replay=None, scale=1.0):
     r.builds.append(b.info())
     if replay:
         j = json.load(open(replay))
+        if str(j.get("key", "")).startswith("C14:lib:"):
+            from checks import c14lib
+            c14lib.replay(r, b, j["witness"])
+            return r.finish()
         cid = j["witness"]["case"]
         shard, i = divmod(cid, 100000)
         part = report.Part()
@@ -501,6 +505,9 @@ def run(tier, seed, replay=None, scale=1.0):
     pair_limit = 45 if tier == "quick" else 80
     for part in report.run_sharded(_worker, [(seed, i, per, None, pair_limit) for i in range(16)]):
         r.merge(part)
+    # library-level part: message copy / edit / build / demarshal / loader (with descriptors) / match-rule parse
+    from checks import c14lib
+    c14lib.run_part(r, b, tier, seed, scale)
     r.extra["exhaustive"] = False
     r.extra["k_enumeration"] = "exhaustive 0..N-1 for every sampled (state, operation)"
     if scale >= 1:
@@ -508,7 +515,7 @@ def run(tier, seed, replay=None, scale=1.0):
         r.require("world:succeeded", 20)
         r.require("cases", 50)
     r.assumptions = ["only dbus_malloc-family allocations are failed (libc-internal allocations are not)",
-                     "the fault window is the dispatch of the operation's message in the bus (hook H2); client-side allocations are never failed",
+                     "bus part: the fault window is the dispatch of the operation's message in the bus (hook H2); library part: libdbus' own injector around one library call in an in-process harness",
                      "leaks are detected by LeakSanitizer at graceful daemon exit (attributed to a case, not to one k)",
                      "RemoveMatch of a rule that is not held is skipped here (two replies already without any fault: known C07 finding)"]
     return r.finish()
